@@ -94,7 +94,7 @@ pub fn search() -> Option<String> {
         rng ^= rng << 17;
         (rng % m as u64) as usize
     };
-    for _ in 0..30000 {
+    for _ in 0..(if crate::thorough() { 400000 } else { 30000 }) {
         let n = 1 + next(5);
         let text: String = (0..n).map(|_| TEXT_ALPHA[next(TEXT_ALPHA.len())]).collect();
         let labels: Vec<B> = (0..n - 1).map(|_| match next(3) { 0 => B::WordBoundary, 1 => B::NotWordBoundary, _ => B::Unknown }).collect();
